@@ -358,7 +358,8 @@ func runC26(c *an.Ctx) {
 				}
 			}
 		}
-		if !fullRange || len(broots) == 0 {
+		_ = fullRange // (the value part is required of every integer key, clamped on the way in or not)
+		if len(broots) == 0 {
 			continue
 		}
 		var raws, errs []ssa.Value
@@ -578,6 +579,11 @@ func runC26(c *an.Ctx) {
 	// ---- O2 metadata admission
 	c26Metadata(c, builder, writes, appendedIn, reserved)
 
+	// ---- O2' readers filter like the builder admits: an entry is delivered only for keys absent from the reserved table
+	if reserved != nil {
+		c26MetadataReaders(c, reserved)
+	}
+
 	// ---- O3 decoding
 	c26Unmarshal(c, fPB)
 }
@@ -707,6 +713,103 @@ func c26KeyNameSiblings(c *an.Ctx, ctor *ssa.Function) {
 		"the constructor side never derives the signer's peer ID with peer.IDFromPublicKey: whether the key must be embedded is decided by a rule the extractor does not share")
 	c.Check(derivedOn["extractor"] > 0, "O5", "R-SIB", an.FuncName(ex), "embedded key related to the name by the creator's derivation", ex.Pos(), "the extractor derives the embedded key's peer ID with peer.IDFromPublicKey / MatchesPublicKey",
 		"ExtractPublicKey never relates the embedded key to the name through peer.IDFromPublicKey / ID.MatchesPublicKey, the derivation the constructor's embed decision (and every name) is based on")
+}
+
+// c26MetadataReaders: every exported method of Record (and its closures) that consults the reserved table hands out a
+// metadata entry — a successful return carrying a value, a `true`, or a call of the caller's yield function — only on
+// the edge where the key was NOT found in the table; the builder admits exactly those keys.
+func c26MetadataReaders(c *an.Ctx, reserved *ssa.Global) {
+	p := c.P
+	n := 0
+	for _, m := range p.Methods("ipns", "Record") {
+		if o := m.Object(); o == nil || !o.Exported() {
+			continue
+		}
+		for _, g := range an.WithClosures(m) {
+			var oks []ssa.Value
+			an.Instrs(g, func(in ssa.Instruction) {
+				if lk, ok := in.(*ssa.Lookup); ok && lk.CommaOk {
+					if gl, ok := c26GlobalOf(lk.X); ok && gl == reserved {
+						for _, r := range *lk.Referrers() {
+							if e, ok := r.(*ssa.Extract); ok && e.Index == 1 {
+								oks = append(oks, e)
+							}
+						}
+					}
+				}
+			})
+			if len(oks) == 0 {
+				continue
+			}
+			notRes := an.BoolEdges(g, oks, false)
+			good := true
+			at := g.Pos()
+			nSites := 0
+			for _, r := range an.Returns(g) {
+				if len(r.Results) == 0 {
+					continue
+				}
+				last := r.Results[len(r.Results)-1]
+				deliver := false
+				switch {
+				case len(r.Results) >= 2 && an.IsErrorType(last.Type()):
+					deliver = an.IsNilConst(last) // success carrying a value
+				case len(r.Results) == 1:
+					if k, isK := an.ConstOf(r.Results[0]); isK && k.Kind() == constant.Bool {
+						deliver = constant.BoolVal(k)
+					} else if bt, isB := r.Results[0].Type().Underlying().(*types.Basic); isB && bt.Kind() == types.Bool {
+						deliver = true // a computed answer (may be true)
+					}
+				}
+				if deliver {
+					nSites++
+					if !an.GuardedBy(g, nil, r, notRes) {
+						good, at = false, r.Pos()
+					}
+				}
+			}
+			for _, call := range an.AllCalls(g) {
+				// a call of a function value that is a parameter or captured variable: the caller's yield
+				cm := call.Common()
+				if cm.IsInvoke() || cm.StaticCallee() != nil {
+					continue
+				}
+				switch cm.Value.(type) {
+				case *ssa.Parameter, *ssa.FreeVar:
+					nSites++
+					if !an.GuardedBy(g, nil, call, notRes) {
+						good, at = false, call.Pos()
+					}
+				}
+			}
+			if nSites == 0 {
+				continue
+			}
+			n++
+			c.Check(good, "O2", "R-SIB", an.FuncName(g), "metadata delivered only for keys outside the reserved table", at, "entries are handed out only on the not-reserved edge of the table lookup",
+				"a metadata reader hands out an entry (or answers true) on an edge where the key is not known to be absent from the reserved table — the filter is missing or inverted: metadata stored at creation cannot be read back (or signed IPNS fields are exposed as metadata)")
+		}
+	}
+	c.Min("O2 metadata readers consulting the reserved table", n, 1)
+}
+
+// c26IntSize: byte size of an integer type (0 for others; int/uint counted as 8).
+func c26IntSize(t types.Type) int {
+	b, ok := t.Underlying().(*types.Basic)
+	if !ok {
+		return 0
+	}
+	switch b.Kind() {
+	case types.Int8, types.Uint8:
+		return 1
+	case types.Int16, types.Uint16:
+		return 2
+	case types.Int32, types.Uint32:
+		return 4
+	case types.Int, types.Uint, types.Int64, types.Uint64, types.Uintptr:
+		return 8
+	}
+	return 0
 }
 
 func c26IsPtr(t types.Type) bool { _, ok := t.Underlying().(*types.Pointer); return ok }
@@ -1295,6 +1398,62 @@ func c26Metadata(c *an.Ctx, builder0 *ssa.Function, writes []c26MapWrite, append
 		kinds[an.Callee(call).Name] = true
 	}
 	c.Min("O2 node constructors in the metadata converter", len(kinds), 1)
+	// every node the converter builds is the constructor of the asserted Go type's kind applied to the asserted value
+	// itself (integers only widened): string->NewString, []byte->NewBytes, signed ints->NewInt, bool->NewBool
+	for _, call := range an.Calls(conv, an.M(c26Basic, "", "")) {
+		cv := an.CallValue(call)
+		ctorName := an.Callee(call).Name
+		if cv == nil || len(cv.Call.Args) != 1 || c26CtorReader[ctorName] == "" {
+			continue
+		}
+		v := cv.Call.Args[0]
+		narrowed := false
+		for {
+			cvt, isC := v.(*ssa.Convert)
+			if !isC {
+				break
+			}
+			if c26IntSize(cvt.Type()) < c26IntSize(cvt.X.Type()) {
+				narrowed = true
+			}
+			v = cvt.X
+		}
+		var asserted types.Type
+		switch x := v.(type) {
+		case *ssa.Extract:
+			if ta, ok := x.Tuple.(*ssa.TypeAssert); ok && x.Index == 0 {
+				asserted = ta.AssertedType
+			}
+		case *ssa.TypeAssert:
+			asserted = x.AssertedType
+		}
+		want := ""
+		if asserted != nil {
+			switch t := asserted.Underlying().(type) {
+			case *types.Basic:
+				switch {
+				case t.Kind() == types.String:
+					want = "NewString"
+				case t.Kind() == types.Bool:
+					want = "NewBool"
+				case t.Info()&types.IsInteger != 0 && t.Info()&types.IsUnsigned == 0:
+					want = "NewInt"
+				case t.Info()&types.IsFloat != 0:
+					want = "NewFloat"
+				}
+			case *types.Slice:
+				if bt, ok := t.Elem().Underlying().(*types.Basic); ok && bt.Kind() == types.Uint8 {
+					want = "NewBytes"
+				}
+			}
+		}
+		at := "a value that is not the type-asserted input"
+		if asserted != nil {
+			at = asserted.String()
+		}
+		c.Check(asserted != nil && want == ctorName && !narrowed, "O2", "R-TABLE", an.FuncName(conv), "converter builds "+ctorName+" from the asserted value of its kind", cv.Pos(),
+			ctorName+" applied to the asserted "+at, "the metadata converter builds "+ctorName+" from "+at+" (narrowed: "+fmt.Sprint(narrowed)+"): the typed accessor of the input's kind does not return the caller's value")
+	}
 	kindFn := p.Func(ip, "MetadataValue", "Kind")
 	if !c.Need(kindFn != nil, "ipns.MetadataValue.Kind") {
 		return
